@@ -238,7 +238,7 @@ pub fn run(ctx: &Ctx) {
     // D: all subsets of supplied psks on both sides for strings with <= 2 (quick) / any (thorough) psks
     for hs in all_hs_names() {
         let k = hs.psks.len();
-        if k == 0 || (ctx.tier == Tier::Quick && k > 2) || k > 4 {
+        if k == 0 || (ctx.tier == Tier::Quick && k > 3) || k > 5 {
             continue;
         }
         for mi in 0..(1u32 << k) {
